@@ -13,6 +13,8 @@ ASSUME = ["'diagnostic' is read generously: an error/alert level log line, a lin
           "a statement the grammar accepted as an instruction that contributes zero bytes without a diagnostic is always a violation; 'emitted some other instruction' is judged for the mnemonics of the TLA+ ISA model only (others are counted as unjudged)",
           "TLC evaluates the reference semantics; an operand naming an undefined symbol must be diagnosed"]
 
+COMMON = {"MOV", "ADD", "SUB", "CMP", "AND", "OR", "XOR", "PUSH", "POP", "IN", "OUT", "IMUL", "SHL", "SHR", "SAR", "NOT", "INT", "LGDT", "CALL", "JMP", "JE", "JNE",
+          "INC", "DEC", "ADC", "SBB", "NEG", "MUL", "DIV", "TEST", "XCHG", "LEA", "RET"}
 ALSO = {"C01", "C02", "C05"}      # in a silent run these are, by C07's own statement, C07 violations too
 
 
@@ -30,7 +32,11 @@ def run(ctx):
                 cells.append((mn, s, 0))
         pool = sh["n2"] + sh["n3"]
         if quick:
-            pool = rng.sample(pool, 10)
+            core = []
+            if mn in COMMON:      # every operand kind in each position next to a plain register / immediate
+                kinds = sorted({k for s_ in sh["n1"] for k in s_})
+                core = [[k, "r16"] for k in kinds] + [["r16", k] for k in kinds] + [["r8", k] for k in kinds] + [[k, "imm_s"] for k in kinds]
+            pool = core + rng.sample(pool, 10)
         for s in pool:
             cells.append((mn, s, zlib.crc32((mn + "|" + ",".join(s)).encode()) % 6))    # operand variant: a function of the cell, so quick cells are a subset of thorough
     for mn, s, v in cells:
